@@ -96,7 +96,8 @@ def run(chk):
     # (B3) sessions on toy curves in which the capacity is the state of a generator table with a history (new, increases, copies): prove / verify
     # report InvalidGeneratorsLength exactly when the specification's table capacity is below the padded gate count (nothing else is compared)
     for curve, n in (("toy31723", 200 if q else 3000),):
-        vlib.session_traces(chk, curve, n, dict(vlib.flags(G=1), CMP_K="1"), "threshold-session", seed_off=60)
+        # (the tables' contents and histories are C12's business: here a table is taken with the capacity it reports)
+        vlib.session_traces(chk, curve, n, dict(vlib.flags(), CMP_K="1"), "threshold-session", seed_off=60)
     chk.finish(
         rule="TLC enumerates the full grid (n1, n2, capP, capV) in (0..%d)x(0..%d)x(0..%d)^2, checks ThresholdExact on the guards the protocol "
              "model uses, and prints the expected result of prove and verify for every point; every point is replayed on secq256k1, zorro, "
